@@ -17,7 +17,14 @@ use datafusion_execution::memory_pool::{FairSpillPool, GreedyMemoryPool};
 use datafusion_execution::runtime_env::RuntimeEnvBuilder;
 use datafusion_physical_expr::expressions::Column;
 use datafusion_physical_expr::{LexOrdering, PhysicalSortExpr};
+use datafusion_execution::disk_manager::DiskManagerBuilder;
+use datafusion_execution::memory_pool::{MemoryConsumer, MemoryPool, UnboundedMemoryPool};
 use datafusion_physical_plan::ExecutionPlan;
+use datafusion_physical_plan::metrics::{BaselineMetrics, ExecutionPlanMetricsSet, SpillMetrics};
+use datafusion_physical_plan::sorts::streaming_merge::{SortedSpillFile, StreamingMergeBuilder};
+use datafusion_physical_plan::spill::{SpillManager, get_record_batch_memory_size};
+use datafusion_physical_plan::stream::RecordBatchStreamAdapter;
+use futures::TryStreamExt;
 use datafusion_physical_plan::sorts::partial_sort::PartialSortExec;
 use datafusion_physical_plan::sorts::partitioned_topk::{PartitionedTopKExec, WindowFnKind};
 use datafusion_physical_plan::sorts::sort::SortExec;
@@ -84,7 +91,9 @@ fn parse_case(idx: usize, v: &Value) -> Case {
     }
 }
 
-const OPS: [&str; 10] = [
+const OPS: [&str; 12] = [
+    "spill_merge",
+    "sort_sweep",
     "sort",
     "sort_pp_spm",
     "spm",
@@ -108,32 +117,93 @@ struct Variant {
     spill_res: usize,
     /// sort_in_place_threshold_bytes = 0 (forces per-batch sort + streaming merge of in-memory runs)
     no_in_place: bool,
+    /// explicit sort_in_place_threshold_bytes (0 = not set): mid values make the sorter coalesce
+    /// several buffered batches into one run
+    thr: usize,
     /// arrow type choice per key column (index into the per-kind type list)
     tysel: u64,
+    /// put empty batches at the start / in the middle / at the end of every input stream
+    empties: bool,
+    /// SortPreservingMergeExec / StreamingMergeBuilder round-robin tie breaker
+    rr: bool,
+    /// DiskManager max_spill_merge_fan_in (0 = unlimited)
+    fan_in: usize,
+    // ---- spill_merge lane (sorted runs spilled directly, merged by StreamingMergeBuilder)
+    /// number of sorted runs
+    runs: usize,
+    /// how the sorted rows are dealt to the runs: 0 round-robin, 1 skewed, 2 contiguous blocks, 3 TLC's assignment
+    pattern: usize,
+    /// rows per spilled batch (0 = the whole run as one batch)
+    brows: usize,
+    /// merge budget = fq/4 x (memory of the largest spilled batch); 0 = unbounded
+    fq: usize,
+    /// FairSpillPool instead of GreedyMemoryPool
+    fair: bool,
+    /// the last run is handed over as an in-memory stream instead of a spill file
+    mixed: bool,
+    // ---- sort_sweep lane: SortExec under a budget of gq/20 x (bytes the sorter reserves for the whole input)
+    gq: usize,
 }
 
 impl Variant {
+    fn base(op: &'static str) -> Variant {
+        Variant {
+            op,
+            inb: 8192,
+            outb: 8192,
+            mem: 0,
+            spill_res: 0,
+            no_in_place: false,
+            thr: 0,
+            tysel: 0,
+            empties: false,
+            rr: true,
+            fan_in: 0,
+            runs: 2,
+            pattern: 0,
+            brows: 0,
+            fq: 0,
+            fair: false,
+            mixed: false,
+            gq: 0,
+        }
+    }
     fn name(&self) -> String {
         format!(
-            "{} inb={} outb={} mem={} spill_res={} no_in_place={} tysel={}",
-            self.op, self.inb, self.outb, self.mem, self.spill_res, self.no_in_place, self.tysel
+            "{} inb={} outb={} mem={} spill_res={} no_in_place={} thr={} tysel={} empties={} rr={} fan_in={} runs={} pattern={} brows={} fq={} fair={} mixed={} gq={}",
+            self.op, self.inb, self.outb, self.mem, self.spill_res, self.no_in_place, self.thr, self.tysel, self.empties,
+            self.rr, self.fan_in, self.runs, self.pattern, self.brows, self.fq, self.fair, self.mixed, self.gq
         )
     }
     fn to_json(&self) -> Value {
         json!({"op": self.op, "inb": self.inb, "outb": self.outb, "mem": self.mem, "spill_res": self.spill_res,
-               "no_in_place": self.no_in_place, "tysel": self.tysel})
+               "no_in_place": self.no_in_place, "thr": self.thr, "tysel": self.tysel, "empties": self.empties, "rr": self.rr,
+               "fan_in": self.fan_in, "runs": self.runs, "pattern": self.pattern, "brows": self.brows, "fq": self.fq,
+               "fair": self.fair, "mixed": self.mixed, "gq": self.gq})
     }
     fn from_json(v: &Value) -> Variant {
         let op = v["op"].as_str().unwrap();
-        Variant {
-            op: OPS.iter().find(|o| **o == op).expect("op name"),
-            inb: v["inb"].as_u64().unwrap() as usize,
-            outb: v["outb"].as_u64().unwrap() as usize,
-            mem: v["mem"].as_u64().unwrap() as usize,
-            spill_res: v["spill_res"].as_u64().unwrap() as usize,
-            no_in_place: v["no_in_place"].as_bool().unwrap(),
-            tysel: v["tysel"].as_u64().unwrap(),
-        }
+        let mut r = Variant::base(OPS.iter().find(|o| **o == op).expect("op name"));
+        let u = |k: &str, d: usize| v[k].as_u64().map(|x| x as usize).unwrap_or(d);
+        let b = |k: &str, d: bool| v[k].as_bool().unwrap_or(d);
+        r.inb = u("inb", r.inb);
+        r.outb = u("outb", r.outb);
+        r.mem = u("mem", 0);
+        r.spill_res = u("spill_res", 0);
+        r.no_in_place = b("no_in_place", false);
+        r.thr = u("thr", 0);
+        r.tysel = v["tysel"].as_u64().unwrap_or(0);
+        r.empties = b("empties", false);
+        r.rr = b("rr", true);
+        r.fan_in = u("fan_in", 0);
+        r.runs = u("runs", 2);
+        r.pattern = u("pattern", 0);
+        r.brows = u("brows", 0);
+        r.fq = u("fq", 0);
+        r.fair = b("fair", false);
+        r.mixed = b("mixed", false);
+        r.gq = u("gq", 0);
+        r
     }
 }
 
@@ -143,6 +213,8 @@ fn supports(c: &Case, op: &str) -> bool {
         // TopK asserts k > 0 (LIMIT 0 never reaches the operator: the optimizer plans an empty relation)
         "sort" | "sort_pp_spm" | "sort_coalesced_batches" => c.fetch != 0,
         "spm" | "sorted_input" => true,
+        "spill_merge" => c.sorted.len() >= 2,
+        "sort_sweep" => c.rows.len() >= 4,
         "partial" => nk >= 2,
         "topk_prefix" => nk >= 2 && c.fetch >= 1,
         "ptk_rownumber" | "ptk_rank" | "ptk_denserank" => nk >= 2 && c.ptk_k >= 1,
@@ -153,35 +225,135 @@ fn supports(c: &Case, op: &str) -> bool {
 /// memory budgets (bytes) tried by the spill lane; x000 values use FairSpillPool, the others GreedyMemoryPool
 const MEM_LADDER: [usize; 10] = [1501, 2000, 3001, 4000, 6001, 8000, 12001, 16000, 24001, 48000];
 
+const BROWS: [usize; 7] = [1, 3, 5, 7, 33, 1025, 0];
+
 fn variants(c: &Case, seed: u64, picks_n: usize) -> Vec<Variant> {
     let mut out = vec![];
     let h0 = mix(seed ^ mix(c.idx as u64 + 7));
+    let n = c.rows.len();
+    let large = n > 200;
     for (oi, op) in OPS.iter().enumerate() {
         if !supports(c, op) {
             continue;
         }
-        let n = if matches!(*op, "sort" | "sort_pp_spm") { picks_n * 2 } else { picks_n };
-        for vi in 0..n {
+        if *op == "spill_merge" {
+            // (A) two runs, fan-in unlimited: the budget is swept from 1.5x to 6x the largest spilled batch
+            //     in steps of 0.25 on both pool kinds, so the refusal (< 2x), the halving/re-spill path
+            //     (2x..4x), and the direct path (>= 4x) all occur by construction.
+            let combos = if large { 2 } else { 1 };
+            for ci in 0..combos {
+                let h = mix(h0 ^ mix(0xA000 + ci as u64));
+                let usable: Vec<usize> = BROWS.iter().copied().filter(|b| *b == 0 || (*b > 1 && *b * 2 <= n.max(4))).collect();
+                let brows = if large { [0usize, 1025, 33][((h >> 3) as usize + ci) % 3] } else { usable[(h % usable.len() as u64) as usize] };
+                // the full sweep (0.25 steps, both pools) for every third input of 10..200 rows and (0.5 steps)
+                // for large inputs; the other inputs get a few seeded points of the sweep
+                let small = n < 10;
+                let full = large || (!small && c.idx % 3 == 0);
+                for fq in (6..=24).step_by(if large { 2 } else { 1 }) {
+                    for fair in [false, true] {
+                        if !full {
+                            let hh = mix(h ^ ((fq as u64) << 1 | fair as u64));
+                            // small inputs: ~3 of the 38 points, the others ~8
+                            if hh % 38 >= (if small { 3 } else { 8 }) {
+                                continue;
+                            }
+                        }
+                        let mut v = Variant::base(op);
+                        v.runs = 2;
+                        v.pattern = ((h >> 8) % 3) as usize;
+                        v.brows = brows;
+                        v.fq = fq;
+                        v.fair = fair;
+                        v.outb = [8192usize, 8192, 3, 2][((h >> 12) % 4) as usize];
+                        v.rr = (h >> 16) % 2 == 0;
+                        v.tysel = h >> 20;
+                        out.push(v);
+                    }
+                }
+            }
+            // (B) 3..5 runs, optional fan-in limit, optionally one in-memory stream, TLC's own assignment
+            for vi in 0..(if n < 10 { 2 } else { picks_n * 2 }) {
+                let h = mix(h0 ^ mix(0xB000 + vi as u64));
+                let mut v = Variant::base(op);
+                v.runs = [3usize, 5, 4, 2][(h % 4) as usize];
+                v.pattern = ((h >> 4) % 4) as usize;
+                if v.pattern == 3 {
+                    if c.np >= 2 {
+                        v.runs = c.np;
+                    } else {
+                        v.pattern = 0;
+                    }
+                }
+                v.brows = BROWS[((h >> 8) % 7) as usize];
+                v.fan_in = [0usize, 2, 3, 2][((h >> 12) % 4) as usize];
+                // every other pick has ample memory: with a fan-in limit the reduced-fan-in path is then
+                // the only reason for intermediate spills
+                v.fq = if vi % 2 == 0 { 0 } else { 6 + ((h >> 16) % 40) as usize };
+                v.fair = (h >> 24) % 2 == 0;
+                v.mixed = (h >> 25) % 3 == 0;
+                v.outb = [8192usize, 1, 3, 2][((h >> 28) % 4) as usize];
+                v.rr = (h >> 32) % 2 == 0;
+                v.tysel = h >> 34;
+                out.push(v);
+            }
+            continue;
+        }
+        if *op == "sort_sweep" {
+            // SortExec without fetch under budgets relative to what the sorter reserves for the whole input
+            for vi in 0..picks_n.max(2) {
+                let h = mix(h0 ^ mix(0xC000 + vi as u64));
+                let usable: Vec<usize> = BROWS.iter().copied().filter(|b| *b > 0 && *b * 3 <= n.max(3)).collect();
+                let inb = if usable.is_empty() { 1 } else { usable[(h % usable.len() as u64) as usize] };
+                for gq in [3usize, 5, 7, 9, 12, 15] {
+                    if n < 10 && mix(h ^ gq as u64) % 3 != 0 {
+                        continue;
+                    }
+                    let mut v = Variant::base(op);
+                    v.inb = inb;
+                    // batch_size 8192 makes every spilled run one big batch (skewed: the merge must halve it)
+                    v.outb = [8192usize, 8192, 3, 2][((h >> 8) % 4) as usize];
+                    v.gq = gq;
+                    v.fair = (h >> 12) % 2 == 0;
+                    v.fan_in = [0usize, 0, 2, 3][((h >> 16) % 4) as usize];
+                    v.no_in_place = (h >> 20) % 2 == 0;
+                    v.thr = if (h >> 21) % 3 == 0 { [600usize, 1500, 4000][((h >> 23) % 3) as usize] } else { 0 };
+                    v.empties = (h >> 26) % 4 == 0;
+                    v.tysel = h >> 28;
+                    out.push(v);
+                }
+            }
+            continue;
+        }
+        if large && !matches!(*op, "sort" | "sort_pp_spm" | "spm" | "sorted_input") {
+            continue;
+        }
+        let cnt = if matches!(*op, "sort" | "sort_pp_spm") { picks_n * 2 } else { picks_n };
+        for vi in 0..cnt {
             let h = mix(h0 ^ mix((oi as u64) << 8 | vi as u64));
             let spills = matches!(*op, "sort" | "sort_pp_spm" | "sort_coalesced_batches") && c.fetch < 0;
             // half of the no-fetch sorts run under a tight budget drawn from the ladder
-            let big = c.rows.len() > 10;
+            let big = n > 10;
             let mem = if spills && (big || (h >> 8) % 2 == 0) {
                 // budgets measured to produce 1..40 spills on these inputs (lower ones mostly exhaust)
                 if big { MEM_LADDER[2 + ((h >> 9) % 7) as usize] } else { MEM_LADDER[2 + ((h >> 9) % 5) as usize] }
             } else {
                 0
             };
-            out.push(Variant {
-                op,
-                // first picks walk the batch-size grid deterministically, the rest are seeded
-                inb: [1usize, 2, 8192, 3][if vi < 3 { vi } else { (h % 4) as usize }],
-                outb: [1usize, 2, 8192, 3][((h >> 4) % 4) as usize],
-                mem,
-                spill_res: [0usize, 256, 1024][((h >> 12) % 3) as usize],
-                no_in_place: (h >> 16) % 2 == 0,
-                tysel: h >> 20,
-            });
+            let mut v = Variant::base(op);
+            // first picks walk the batch-size grid deterministically, the rest are seeded
+            v.inb = [1usize, 2, 8192, 3][if vi < 3 { vi } else { (h % 4) as usize }];
+            v.outb = [1usize, 2, 8192, 3][((h >> 4) % 4) as usize];
+            v.mem = mem;
+            v.spill_res = [0usize, 256, 1024][((h >> 12) % 3) as usize];
+            v.no_in_place = (h >> 16) % 2 == 0;
+            // a mid threshold: above it the sorter merges per-batch runs, below it concatenates; for a
+            // single key it coalesces groups of batches up to the threshold
+            v.thr = if (h >> 17) % 4 == 0 { [300usize, 900, 2500][((h >> 19) % 3) as usize] } else { 0 };
+            v.tysel = h >> 24;
+            v.empties = (h >> 21) % 4 == 0;
+            v.rr = (h >> 23) % 2 == 0;
+            v.pattern = ((h >> 40) % 4) as usize;
+            out.push(v);
         }
     }
     out
@@ -257,16 +429,28 @@ fn ordering(c: &Case, nkeys: usize) -> Option<LexOrdering> {
     }))
 }
 
+/// input batches of one stream: chunks of `inb` rows, optionally with empty batches in between
+fn input_batches(schema: &SchemaRef, ps: &SchemaRef, tys: &[ColTy], rows: &[Row], inb: usize, empties: bool) -> Vec<RecordBatch> {
+    let mut b: Vec<RecordBatch> = chunk(schema, tys, rows, inb).into_iter().map(|b| with_pad(ps, b)).collect();
+    if empties {
+        let e = RecordBatch::new_empty(ps.clone());
+        let mid = b.len() / 2;
+        b.insert(mid, e.clone());
+        b.insert(0, e.clone());
+        b.push(e);
+    }
+    b
+}
+
 fn mem_exec(
     schema: &SchemaRef,
     tys: &[ColTy],
     parts: &[Vec<Row>],
-    inb: usize,
+    v: &Variant,
     sort: Option<LexOrdering>,
 ) -> Result<Arc<dyn ExecutionPlan>, String> {
     let ps = padded_schema(schema);
-    let batches: Vec<Vec<RecordBatch>> =
-        parts.iter().map(|p| chunk(schema, tys, p, inb).into_iter().map(|b| with_pad(&ps, b)).collect()).collect();
+    let batches: Vec<Vec<RecordBatch>> = parts.iter().map(|p| input_batches(schema, &ps, tys, p, v.inb, v.empties)).collect();
     let e = TestMemoryExec::try_new(&batches, ps.clone(), None).map_err(|e| format!("mem exec: {e}"))?;
     let e = match sort {
         Some(o) => e.try_with_sort_information(vec![o]).map_err(|e| format!("sort info: {e}"))?,
@@ -274,6 +458,31 @@ fn mem_exec(
     };
     let e = Arc::new(e);
     Ok(Arc::new(TestMemoryExec::update_cache(&e)))
+}
+
+/// Deal the rows of a sorted sequence to `k` runs; every sub-sequence of a sorted sequence is sorted,
+/// so no comparator is involved.  pattern 0 round-robin, 1 skewed (run 0 gets 7 of 8 rows), 2 contiguous
+/// blocks (all but one input are exhausted early), 3 the assignment chosen by TLC.
+fn deal(c: &Case, k: usize, pattern: usize) -> Vec<Vec<Row>> {
+    let k = k.max(1);
+    let n = c.sorted.len();
+    let mut parts = vec![vec![]; k];
+    for (j, r) in c.sorted.iter().enumerate() {
+        let p = match pattern {
+            0 => j % k,
+            1 => {
+                if j % 8 != 0 || k == 1 {
+                    0
+                } else {
+                    1 + (j / 8) % (k - 1)
+                }
+            }
+            2 => (j * k / n.max(1)).min(k - 1),
+            _ => c.assign[j] % k,
+        };
+        parts[p].push(r.clone());
+    }
+    parts
 }
 
 struct Built {
@@ -294,12 +503,13 @@ fn build(c: &Case, v: &Variant) -> Result<Built, String> {
     let fetch = if c.fetch < 0 { None } else { Some(c.fetch as usize) };
     let expect = limit(&c.sorted, c.fetch);
     match v.op {
-        "sort" => {
-            let input = mem_exec(&sch, &tys, &[c.rows.clone()], v.inb, None)?;
+        "sort" | "sort_sweep" => {
+            let input = mem_exec(&sch, &tys, &[c.rows.clone()], v, None)?;
             let mut s = SortExec::new(ord, input);
-            if fetch.is_some() {
+            if fetch.is_some() && v.op == "sort" {
                 s = s.with_fetch(fetch);
             }
+            let expect = if v.op == "sort_sweep" { c.sorted.clone() } else { expect };
             Ok(Built { plan: Arc::new(s), expect })
         }
         "sort_coalesced_batches" => {
@@ -325,38 +535,35 @@ fn build(c: &Case, v: &Variant) -> Result<Built, String> {
             for (i, r) in c.rows.iter().enumerate() {
                 parts[i % c.np].push(r.clone());
             }
-            let input = mem_exec(&sch, &tys, &parts, v.inb, None)?;
+            let input = mem_exec(&sch, &tys, &parts, v, None)?;
             let mut s = SortExec::new(ord.clone(), input).with_preserve_partitioning(true);
             if fetch.is_some() {
                 s = s.with_fetch(fetch);
             }
-            let m = SortPreservingMergeExec::new(ord, Arc::new(s)).with_fetch(fetch);
+            let m = SortPreservingMergeExec::new(ord, Arc::new(s)).with_fetch(fetch).with_round_robin_repartition(v.rr);
             Ok(Built { plan: Arc::new(m), expect })
         }
         "spm" => {
             // sorted partitions taken from the specification's sorted permutation
-            let mut parts = vec![vec![]; c.np];
-            for (i, r) in c.sorted.iter().enumerate() {
-                parts[c.assign[i]].push(r.clone());
-            }
-            let input = mem_exec(&sch, &tys, &parts, v.inb, Some(ord.clone()))?;
-            let m = SortPreservingMergeExec::new(ord, input).with_fetch(fetch);
+            let parts = deal(c, c.np, if v.pattern == 0 { 3 } else { v.pattern });
+            let input = mem_exec(&sch, &tys, &parts, v, Some(ord.clone()))?;
+            let m = SortPreservingMergeExec::new(ord, input).with_fetch(fetch).with_round_robin_repartition(v.rr);
             Ok(Built { plan: Arc::new(m), expect })
         }
         "partial" => {
             let pre = ordering(c, c.pl).ok_or("empty prefix")?;
-            let input = mem_exec(&sch, &tys, &[c.presorted.clone()], v.inb, Some(pre))?;
+            let input = mem_exec(&sch, &tys, &[c.presorted.clone()], v, Some(pre))?;
             let p = PartialSortExec::new(ord, input, c.pl).with_fetch(fetch);
             Ok(Built { plan: Arc::new(p), expect })
         }
         "topk_prefix" => {
             let pre = ordering(c, c.pl).ok_or("empty prefix")?;
-            let input = mem_exec(&sch, &tys, &[c.presorted.clone()], v.inb, Some(pre))?;
+            let input = mem_exec(&sch, &tys, &[c.presorted.clone()], v, Some(pre))?;
             let s = SortExec::new(ord, input).with_fetch(fetch);
             Ok(Built { plan: Arc::new(s), expect })
         }
         "sorted_input" => {
-            let input = mem_exec(&sch, &tys, &[c.sorted.clone()], v.inb, Some(ord.clone()))?;
+            let input = mem_exec(&sch, &tys, &[c.sorted.clone()], v, Some(ord.clone()))?;
             let mut s = SortExec::new(ord, input);
             if fetch.is_some() {
                 s = s.with_fetch(fetch);
@@ -369,7 +576,7 @@ fn build(c: &Case, v: &Variant) -> Result<Built, String> {
                 "ptk_rank" => (WindowFnKind::Rank, "rank"),
                 _ => (WindowFnKind::DenseRank, "denserank"),
             };
-            let input = mem_exec(&sch, &tys, &[c.rows.clone()], v.inb, None)?;
+            let input = mem_exec(&sch, &tys, &[c.rows.clone()], v, None)?;
             let p = PartitionedTopKExec::try_new(input, ord, 1, c.ptk_k, kind).map_err(|e| format!("plan construction failed: {e}"))?;
             Ok(Built { plan: Arc::new(p), expect: c.ptk[name].clone() })
         }
@@ -377,36 +584,60 @@ fn build(c: &Case, v: &Variant) -> Result<Built, String> {
     }
 }
 
-fn task_ctx(v: &Variant) -> Result<Arc<TaskContext>, String> {
+fn pool_of(bytes: usize, fair: bool) -> Arc<dyn MemoryPool> {
+    if fair { Arc::new(FairSpillPool::new(bytes)) } else { Arc::new(GreedyMemoryPool::new(bytes)) }
+}
+
+/// bytes the external sorter reserves for the whole input (2x the in-memory size of every batch)
+fn sorter_reservation_for_input(c: &Case, v: &Variant) -> usize {
+    let tys = col_types(c, v);
+    let sch = schema(c, &tys);
+    let ps = padded_schema(&sch);
+    input_batches(&sch, &ps, &tys, &c.rows, v.inb, false).iter().map(|b| 2 * get_record_batch_memory_size(b)).sum()
+}
+
+fn task_ctx(c: &Case, v: &Variant) -> Result<Arc<TaskContext>, String> {
     let mut cfg = SessionConfig::new().with_batch_size(v.outb);
     cfg.options_mut().execution.sort_spill_reservation_bytes = v.spill_res;
     if v.no_in_place {
         cfg.options_mut().execution.sort_in_place_threshold_bytes = 0;
     }
+    if v.thr > 0 {
+        cfg.options_mut().execution.sort_in_place_threshold_bytes = v.thr;
+    }
     let mut ctx = TaskContext::default().with_session_config(cfg);
-    if v.mem > 0 {
-        let b = RuntimeEnvBuilder::new();
-        let b = if v.mem % 1000 == 0 {
-            b.with_memory_pool(Arc::new(FairSpillPool::new(v.mem)))
-        } else {
-            b.with_memory_pool(Arc::new(GreedyMemoryPool::new(v.mem)))
-        };
+    let pool: Option<Arc<dyn MemoryPool>> = if v.op == "sort_sweep" && v.gq > 0 {
+        Some(pool_of((sorter_reservation_for_input(c, v) * v.gq / 20).max(64), v.fair))
+    } else if v.mem > 0 {
+        Some(pool_of(v.mem, v.mem % 1000 == 0))
+    } else {
+        None
+    };
+    if pool.is_some() || v.fan_in > 0 {
+        let mut b = RuntimeEnvBuilder::new().with_disk_manager_builder(disk_manager(v));
+        if let Some(p) = pool {
+            b = b.with_memory_pool(p);
+        }
         ctx = ctx.with_runtime(b.build_arc().map_err(|e| format!("runtime env: {e}"))?);
     }
     Ok(Arc::new(ctx))
 }
 
-fn spill_count(plan: &Arc<dyn ExecutionPlan>) -> usize {
+fn metric_sum(plan: &Arc<dyn ExecutionPlan>, f: &dyn Fn(&datafusion_physical_plan::metrics::MetricsSet) -> Option<usize>) -> usize {
     if plan.children().is_empty() {
         return 0; // the in-memory test source does not implement metrics()
     }
-    let own = plan.metrics().and_then(|m| m.spill_count()).unwrap_or(0);
-    own + plan.children().iter().map(|c| spill_count(c)).sum::<usize>()
+    let own = plan.metrics().and_then(|m| f(&m)).unwrap_or(0);
+    own + plan.children().iter().map(|c| metric_sum(c, f)).sum::<usize>()
 }
 
 enum Outcome {
-    Ok { spills: usize },
+    /// `path` names the merge path that ran (spill_merge / sort_sweep lanes), `odd` = a spilled batch had an
+    /// odd number (> 1) of rows
+    Ok { spills: usize, path: &'static str, odd: bool },
     Exhausted,
+    /// the configuration is outside the operator's domain for this case (counted, not judged)
+    Skipped(&'static str),
     Violation(String, Value),
 }
 
@@ -429,6 +660,168 @@ fn sub_bag(a: &[Row], b: &[Row]) -> bool {
     true
 }
 
+fn is_exhausted(msg: &str) -> bool {
+    msg.contains("Resources exhausted") || msg.contains("ResourcesExhausted")
+}
+
+/// The property-level oracle shared by all lanes.
+fn judge(c: &Case, expect: &[Row], batches: &[RecordBatch]) -> Result<(), (String, Value)> {
+    // the pad column must still belong to its row id; then drop it
+    let mut projected = vec![];
+    for b in batches {
+        let n = b.num_columns();
+        let ids = b.column(n - 2).as_any().downcast_ref::<arrow::array::Int32Array>();
+        let pads = b.column(n - 1).as_any().downcast_ref::<arrow::array::StringArray>();
+        match (ids, pads) {
+            (Some(ids), Some(pads)) => {
+                for i in 0..b.num_rows() {
+                    if pads.is_null(i) || ids.is_null(i) || pads.value(i) != pad_of(ids.value(i) as i64) {
+                        return Err(("payload column does not belong to its row (columns permuted differently)".to_string(), Value::Null));
+                    }
+                }
+            }
+            _ => return Err((format!("unexpected output schema {:?}", b.schema()), Value::Null)),
+        }
+        projected.push(b.project(&(0..n - 1).collect::<Vec<_>>()).expect("project"));
+    }
+    let rows = match decode_batches(&projected) {
+        Ok(r) => r,
+        Err(e) => return Err((format!("undecodable output: {e}"), Value::Null)),
+    };
+    // large outputs are not echoed into the replay file
+    let echo = |rows: &[Row]| if rows.len() <= 200 { rows_to_json(rows) } else { json!(format!("{} rows (not echoed)", rows.len())) };
+    let got_keys: Vec<Vec<Val>> = rows.iter().map(|r| key_of(c, r)).collect();
+    let exp_keys: Vec<Vec<Val>> = expect.iter().map(|r| key_of(c, r)).collect();
+    if got_keys != exp_keys {
+        let pos = got_keys.iter().zip(exp_keys.iter()).position(|(a, b)| a != b).unwrap_or(got_keys.len().min(exp_keys.len()));
+        return Err((
+            format!("key sequence differs from the specification at position {} (got {} rows, expected {})", pos + 1, rows.len(), expect.len()),
+            echo(&rows),
+        ));
+    }
+    if !sub_bag(&rows, &c.rows) {
+        return Err(("output is not a sub-bag of the input (row duplicated or invented)".to_string(), echo(&rows)));
+    }
+    Ok(())
+}
+
+/// spill_merge lane: sorted runs (taken from the specification's sorted permutation) are written as spill
+/// files through SpillManager and merged by StreamingMergeBuilder -> MultiLevelMergeBuilder under a budget
+/// that is a multiple of the largest spilled batch.
+thread_local! {
+    /// one spill directory per worker thread (a fresh DiskManager per evaluation would create and remove
+    /// a temporary directory every time)
+    static SPILL_DIR: tempfile::TempDir = tempfile::tempdir().expect("spill dir");
+}
+
+fn disk_manager(v: &Variant) -> DiskManagerBuilder {
+    let dir = SPILL_DIR.with(|d| d.path().to_path_buf());
+    DiskManagerBuilder::default()
+        .with_mode(datafusion_execution::disk_manager::DiskManagerMode::Directories(vec![dir]))
+        .with_max_spill_merge_fan_in(v.fan_in)
+}
+
+fn run_spill_merge(rt: &tokio::runtime::Runtime, c: &Case, v: &Variant) -> Outcome {
+    let tys = col_types(c, v);
+    let sch = schema(c, &tys);
+    let ps = padded_schema(&sch);
+    let nk = c.keys.len();
+    let Some(ord) = ordering(c, nk) else { return Outcome::Violation("empty ordering".into(), Value::Null) };
+    let fetch = if c.fetch < 0 { None } else { Some(c.fetch as usize) };
+    let expect = limit(&c.sorted, c.fetch);
+    let runs: Vec<Vec<Row>> = deal(c, v.runs, v.pattern).into_iter().filter(|r| !r.is_empty()).collect();
+    let run_batches: Vec<Vec<RecordBatch>> = runs
+        .iter()
+        .map(|r| input_batches(&sch, &ps, &tys, r, if v.brows == 0 { r.len() } else { v.brows }, false))
+        .collect();
+    if run_batches.len() < 2 {
+        // a "merge" of a single run is handed through unchanged by StreamingMergeBuilder (fetch is not
+        // applied; its callers special-case one input), so it is not a merge case
+        return Outcome::Skipped("single_run");
+    }
+    let n_mem = if v.mixed && run_batches.len() >= 2 { 1 } else { 0 };
+    let n_spill = run_batches.len() - n_mem;
+    let m = run_batches[..n_spill].iter().flatten().map(get_record_batch_memory_size).max().unwrap_or(0);
+    let odd = run_batches[..n_spill].iter().flatten().any(|b| b.num_rows() > 1 && b.num_rows() % 2 == 1);
+    let pool: Arc<dyn MemoryPool> = if v.fq == 0 { Arc::new(UnboundedMemoryPool::default()) } else { pool_of(m * v.fq / 4, v.fair) };
+    let env = match RuntimeEnvBuilder::new()
+        .with_memory_pool(pool.clone())
+        .with_disk_manager_builder(disk_manager(v))
+        .build_arc()
+    {
+        Ok(e) => e,
+        Err(e) => return Outcome::Violation(format!("runtime env: {e}"), Value::Null),
+    };
+    let mset = ExecutionPlanMetricsSet::new();
+    let spill_metrics = SpillMetrics::new(&mset, 0);
+    let sm = SpillManager::new(env, spill_metrics.clone(), ps.clone());
+    let mut files = vec![];
+    for b in &run_batches[..n_spill] {
+        let max_mem = b.iter().map(get_record_batch_memory_size).max().unwrap_or(0);
+        match sm.spill_record_batch_and_finish(b, "verif sorted run") {
+            Ok(Some(file)) => files.push(SortedSpillFile { file, max_record_batch_memory: max_mem }),
+            Ok(None) => {}
+            Err(e) => return Outcome::Violation(format!("spilling a run failed: {e}"), Value::Null),
+        }
+    }
+    let mut streams: Vec<datafusion_execution::SendableRecordBatchStream> = vec![];
+    for b in &run_batches[n_spill..] {
+        let it = futures::stream::iter(b.clone().into_iter().map(Ok));
+        streams.push(Box::pin(RecordBatchStreamAdapter::new(ps.clone(), it)));
+    }
+    let files_before = spill_metrics.spill_file_count.value();
+    let n_files = files.len();
+    let reservation = MemoryConsumer::new("verif merge").register(&pool);
+    let res = std::panic::catch_unwind(AssertUnwindSafe(|| {
+        rt.block_on(async {
+            let stream = StreamingMergeBuilder::new()
+                .with_sorted_spill_files(files)
+                .with_streams(streams)
+                .with_spill_manager(sm.clone())
+                .with_schema(ps.clone())
+                .with_expressions(&ord)
+                .with_metrics(BaselineMetrics::new(&mset, 0))
+                .with_batch_size(v.outb)
+                .with_fetch(fetch)
+                .with_reservation(reservation)
+                .with_round_robin_tie_breaker(v.rr)
+                .build()?;
+            stream.try_collect::<Vec<RecordBatch>>().await
+        })
+    }));
+    let batches = match res {
+        Err(p) => {
+            let msg = p.downcast_ref::<String>().cloned().or_else(|| p.downcast_ref::<&str>().map(|s| s.to_string())).unwrap_or_default();
+            return Outcome::Violation(format!("merge panicked: {msg}"), Value::Null);
+        }
+        Ok(Err(e)) => {
+            let s = e.to_string();
+            if v.fq > 0 && is_exhausted(&s) {
+                return Outcome::Exhausted;
+            }
+            return Outcome::Violation(format!("merge failed: {s}"), Value::Null);
+        }
+        Ok(Ok(b)) => b,
+    };
+    if let Err((msg, got)) = judge(c, &expect, &batches) {
+        return Outcome::Violation(msg, got);
+    }
+    let extra = spill_metrics.spill_file_count.value() - files_before;
+    // which path ran: with exactly two spill files (and nothing else) a merge never writes an intermediate
+    // run, so any additional spill file is a re-spill with halved batches; with ample memory and a fan-in
+    // limit any additional file is an intermediate run of the reduced-fan-in path
+    let path = if extra == 0 {
+        "direct"
+    } else if n_files == 2 && n_mem == 0 {
+        "halving"
+    } else if v.fq == 0 && v.fan_in > 0 {
+        "reduced_fan_in"
+    } else {
+        "multi_pass_or_halving"
+    };
+    Outcome::Ok { spills: extra, path, odd }
+}
+
 fn run_variant(rt: &tokio::runtime::Runtime, c: &Case, v: &Variant) -> Outcome {
     if std::env::var("VOPS_TEST_HANG").is_ok() {
         // self-test of the watchdog lane only
@@ -436,11 +829,14 @@ fn run_variant(rt: &tokio::runtime::Runtime, c: &Case, v: &Variant) -> Outcome {
             std::thread::sleep(std::time::Duration::from_secs(1));
         }
     }
+    if v.op == "spill_merge" {
+        return run_spill_merge(rt, c, v);
+    }
     let built = match build(c, v) {
         Ok(b) => b,
         Err(e) => return Outcome::Violation(format!("operator rejected a supported sort: {e}"), Value::Null),
     };
-    let ctx = match task_ctx(v) {
+    let ctx = match task_ctx(c, v) {
         Ok(c) => c,
         Err(e) => return Outcome::Violation(e, Value::Null),
     };
@@ -453,49 +849,28 @@ fn run_variant(rt: &tokio::runtime::Runtime, c: &Case, v: &Variant) -> Outcome {
         }
         Ok(Err(e)) => {
             let s = e.to_string();
-            if v.mem > 0 && (s.contains("Resources exhausted") || s.contains("ResourcesExhausted")) {
+            if (v.mem > 0 || v.gq > 0) && is_exhausted(&s) {
                 return Outcome::Exhausted;
             }
             return Outcome::Violation(format!("operator failed: {s}"), Value::Null);
         }
         Ok(Ok(b)) => b,
     };
-    // the pad column must still belong to its row id; then drop it
-    let mut projected = vec![];
-    for b in &batches {
-        let n = b.num_columns();
-        let ids = b.column(n - 2).as_any().downcast_ref::<arrow::array::Int32Array>();
-        let pads = b.column(n - 1).as_any().downcast_ref::<arrow::array::StringArray>();
-        match (ids, pads) {
-            (Some(ids), Some(pads)) => {
-                for i in 0..b.num_rows() {
-                    if pads.is_null(i) || ids.is_null(i) || pads.value(i) != pad_of(ids.value(i) as i64) {
-                        return Outcome::Violation("payload column does not belong to its row (columns permuted differently)".to_string(), Value::Null);
-                    }
-                }
-            }
-            _ => return Outcome::Violation(format!("unexpected output schema {:?}", b.schema()), Value::Null),
-        }
-        projected.push(b.project(&(0..n - 1).collect::<Vec<_>>()).expect("project"));
+    if let Err((msg, got)) = judge(c, &built.expect, &batches) {
+        return Outcome::Violation(msg, got);
     }
-    let batches = projected;
-    let rows = match decode_batches(&batches) {
-        Ok(r) => r,
-        Err(e) => return Outcome::Violation(format!("undecodable output: {e}"), Value::Null),
+    let spills = metric_sum(&plan, &|m| m.spill_count());
+    let spilled_rows = metric_sum(&plan, &|m| m.spilled_rows());
+    // SortExec lanes: every row is spilled once when its run is written; more spilled rows than input rows
+    // means runs were written again (intermediate merge passes and / or re-spills with halved batches)
+    let path = if spills == 0 {
+        "in_memory"
+    } else if spilled_rows > c.rows.len() {
+        "spill_rewritten"
+    } else {
+        "spill_single_pass"
     };
-    let got_keys: Vec<Vec<Val>> = rows.iter().map(|r| key_of(c, r)).collect();
-    let exp_keys: Vec<Vec<Val>> = built.expect.iter().map(|r| key_of(c, r)).collect();
-    if got_keys != exp_keys {
-        let pos = got_keys.iter().zip(exp_keys.iter()).position(|(a, b)| a != b).unwrap_or(got_keys.len().min(exp_keys.len()));
-        return Outcome::Violation(
-            format!("key sequence differs from the specification at position {} (got {} rows, expected {})", pos + 1, rows.len(), built.expect.len()),
-            rows_to_json(&rows),
-        );
-    }
-    if !sub_bag(&rows, &c.rows) {
-        return Outcome::Violation("output is not a sub-bag of the input (row duplicated or invented)".to_string(), rows_to_json(&rows));
-    }
-    Outcome::Ok { spills: spill_count(&plan) }
+    Outcome::Ok { spills, path, odd: false }
 }
 
 pub fn main() {
@@ -543,17 +918,19 @@ pub fn main() {
                     for v in &vs {
                         *local.entry("evaluations".into()).or_default() += 1;
                         *local.entry(format!("op:{}", v.op)).or_default() += 1;
-                        if v.mem > 0 {
+                        if v.mem > 0 || v.fq > 0 || v.gq > 0 {
                             *local.entry("tight_memory".into()).or_default() += 1;
                         }
                         wd.enter(w, json!({"case": c.raw, "variant": v.to_json()}).to_string());
+                        let t0 = std::time::Instant::now();
                         let o = run_variant(&rt, c, v);
                         wd.leave(w);
+                        *local.entry(format!("ms:{}:{}", v.op, if c.rows.len() > 200 { "large" } else { "small" })).or_default() += t0.elapsed().as_micros() as u64;
                         match o {
-                            Outcome::Ok { spills } => {
+                            Outcome::Ok { spills, path, odd } => {
                                 *local.entry("ok".into()).or_default() += 1;
                                 if std::env::var("VOPS_LOG").is_ok() {
-                                    eprintln!("LOG n={} {} spills={}", c.rows.len(), v.name(), spills);
+                                    eprintln!("LOG n={} {} spills={} path={}", c.rows.len(), v.name(), spills, path);
                                 }
                                 let b = match spills {
                                     0 => "0",
@@ -563,8 +940,19 @@ pub fn main() {
                                     6..=10 => "6-10",
                                     _ => ">10",
                                 };
-                                if v.mem > 0 {
+                                let lane = match v.op {
+                                    "spill_merge" => "merge",
+                                    "sort_sweep" => "sweep",
+                                    _ => "sort",
+                                };
+                                if v.mem > 0 || v.fq > 0 || v.gq > 0 {
                                     *local.entry(format!("spills:{b}")).or_default() += 1;
+                                }
+                                if matches!(lane, "merge" | "sweep") || v.mem > 0 {
+                                    *local.entry(format!("path:{lane}:{path}")).or_default() += 1;
+                                    if odd && path == "halving" {
+                                        *local.entry("path:merge:halving_with_odd_batches".into()).or_default() += 1;
+                                    }
                                 }
                                 if spills > 0 {
                                     *local.entry(format!("spilled_op:{}", v.op)).or_default() += 1;
@@ -575,10 +963,11 @@ pub fn main() {
                                 if nontrivial {
                                     use std::hash::{Hash, Hasher};
                                     let mut h = std::collections::hash_map::DefaultHasher::new();
-                                    (c.raw.to_string(), v.name()).hash(&mut h);
+                                    (c.idx, v.name()).hash(&mut h);
                                     local_distinct.push(h.finish());
                                 }
                             }
+                            Outcome::Skipped(why) => *local.entry(format!("skipped:{why}")).or_default() += 1,
                             Outcome::Exhausted => {
                                 if std::env::var("VOPS_LOG").is_ok() {
                                     eprintln!("LOG n={} {} exhausted", c.rows.len(), v.name());
